@@ -518,7 +518,11 @@ func (g *gen) helper() {
 		}
 		g.emit(Op{K: KGradRaw, U: uint8(t.Intn(2)), F: f, Spread: uint8(t.Intn(4)), Stops: g.stops()})
 	case 4:
-		g.emit(Op{K: KPathData, U: g.adj(), S: GenPathData(t, true)})
+		o := Op{K: KPathData, U: g.adj(), S: GenPathData(t, true)}
+		if t.Chance(1, 3) {
+			o.F = [6]float32{float32(int(1) << uint(t.Intn(3))), float32(t.Range(-1024, 1024)) / 64, float32(t.Range(-1024, 1024)) / 64}
+		}
+		g.emit(o)
 		return
 	default:
 		g.emit(Op{K: KMDPath, U: g.adj(), S: GenPathData(t, false)})
